@@ -217,9 +217,57 @@ func c07GenTracked(tier string, rng *rand.Rand, emit func(Case)) {
 		}
 		emit(c)
 	})
+	// the channel's side of the condition: how the receive loop classifies the parser's answer. A sample
+	// of the encodings of every kind travels through the real Channel.WritePacket, cut inside the package
+	// (`rx` lines of C02): the truncated attempt must leave no trace (no channel error, no delivery), and
+	// the complete bytes must give what the uncut response gives.
+	per := 10
+	if tier == "thorough" {
+		per = 60
+	}
+	byKind := map[string]int{}
+	for _, e := range collectEncodings(tier, rng, 0) {
+		if ffIsBlobCase("pkg spec " + e.kind + " " + e.fields) {
+			continue
+		}
+		byKind[e.kind]++
+		if byKind[e.kind] > per*8 || byKind[e.kind]%8 != 1 {
+			continue
+		}
+		var body []byte
+		if e.ctx != "-" {
+			body = append(body, unhx(e.ctx)...)
+		}
+		start := len(body)
+		body = append(body, e.bytes...)
+		end := len(body)
+		body = append(body, wDone(0xFD, 0, 0, 1)...)
+		if len(body) > 8000 {
+			continue
+		}
+		for _, cut := range []int{start + 1, start + (end-start)/2, end - 1} {
+			if cut <= start || cut >= end {
+				continue
+			}
+			emit(Case{Line: fmt.Sprintf("rx 0 0 %s", strings.Join(cutTokens(body, []int{cut}), " ")), Kind: "channel-cut:" + e.kind})
+		}
+	}
+}
+
+func c07Impl(line string) string {
+	if strings.HasPrefix(line, "rx ") {
+		return rxImpl(line)
+	}
+	return pkgImpl(line)
 }
 
 func c07Oracle(line, out string) string {
+	if strings.HasPrefix(line, "rx ") {
+		if cl := rxOracleC02(line, out); cl != "" {
+			return "cut off inside a package, the channel waits for the rest: no error, no delivery from the truncated attempt, and the complete bytes give the result of the uncut response"
+		}
+		return ""
+	}
 	v, ok := c07Prefixes.Load(line)
 	if !ok {
 		return ""
@@ -401,7 +449,7 @@ func init() {
 		Assumptions: []string{"the PacketQueue is a byte FIFO (C15)", "a package is compared by its serialised fields (canonical rendering), not by Go struct identity"},
 	})
 	register(&Prop{
-		ID: "C07", Gen: c07GenTracked, Impl: pkgImpl, Oracle: c07Oracle,
+		ID: "C07", Gen: c07GenTracked, Impl: c07Impl, Oracle: c07Oracle,
 		FindingKey: func(line, out, clause string) string {
 			if ffIsBlobCase(line) {
 				return "blob:" + clause // known finding blob-not-functional: cases with a BLOB (0x24) column
@@ -413,7 +461,7 @@ func init() {
 			return clause
 		},
 		Nontrivial: pkgNontrivial, NoShrink: true, Timeout: 30 * time.Second,
-		Rule: "every valid encoding produced by the registry generators (real WriteTo and the independent encoders) × every proper prefix of it (all prefixes up to 400 bytes, first/last 64 and 60 random cuts beyond), decoded by the real ReadFrom on a bounded queue and by the Lean decoder: must be not-enough-bytes; then the complete bytes. value level: GoValue on every data type byte 0..255 with every data length 0..255 (zero, 0xff and random data) vs the Lean value model. Non-trivial = well-formed case",
+		Rule: "every valid encoding produced by the registry generators (real WriteTo and the independent encoders) × every proper prefix of it (all prefixes up to 400 bytes, first/last 64 and 60 random cuts beyond), decoded by the real ReadFrom on a bounded queue and by the Lean decoder: must be not-enough-bytes; then the complete bytes; channel leg: a sample of the encodings of every kind (after their format where needed, followed by a DONE) through the real Channel.WritePacket cut inside the package at three positions, compared with the uncut response. value level: GoValue on every data type byte 0..255 with every data length 0..255 (zero, 0xff and random data) vs the Lean value model. Non-trivial = well-formed case",
 		Assumptions: []string{"a fresh package object per attempt, as tryParsePackage does (LookupPackage inside the retry loop)"},
 	})
 	register(&Prop{
